@@ -25,7 +25,7 @@ def _posdef(n, scale, twist):
 class V(object):
     """Valuation v for data size n."""
 
-    def __init__(self, v, n=5, yscale=1.0):
+    def __init__(self, v, n=5, yscale=1.0, xscale=1.0):
         v = int(v) % NVAL
         self.v, self.n = v, n
         base_x = np.array([0.5, 1.3, 2.1, 3.4, 4.2, 5.5, 6.1, 7.3, 8.4, 9.2, 10.3, 11.1])[:n]
@@ -53,6 +53,10 @@ class V(object):
         self.Mx = _posdef(n, 0.1 + 0.01 * v, 1.0 + 0.3 * v)
         self.C = _ar1(n, 0.4 + 0.1 * v)  # correlation matrix
         self.Mrel = _posdef(n, 0.07 + 0.01 * v, 2.0 + 0.3 * v)  # relative covariance
+        if xscale != 1.0:  # x expressed in another unit
+            for _k in ("x", "x_alt", "ex", "ex2", "xs"):
+                setattr(self, _k, getattr(self, _k) * xscale)
+            self.Mx = self.Mx * xscale**2
         if yscale != 1.0:  # y expressed in another unit (absolute quantities only)
             for _k in ("y", "y_alt", "y_mixed", "ey", "ey2", "ys"):
                 setattr(self, _k, getattr(self, _k) * yscale)
